@@ -20,9 +20,9 @@ CLAIM = dict(
           "every field; the P2P table entry of (x, y) is read from word y/8, bits 3(y mod 8) of column block x for every "
           "width/height up to 255; the system description contains exactly the listed chips that answer, dead chips / "
           "dead links are the complement; the console buffer is the concatenation of `length` bytes of every block of "
-          "the chain; both software-version encodings and the router counters decode to the machine's values; every field "
-          "of the status block is unpacked from its documented position (layout half; the renaming / enum step is "
-          "validated only); the machine "
+          "the chain; both software-version encodings and the router counters decode to the machine's values; the 128-byte "
+          "status block laid out by the specification decodes to exactly the status record (every field from its "
+          "documented position, renaming, enumeration check, version split, name stripped of NULs); the machine "
           "model built from a description has exactly its chips, links and per-chip quantities; the generated core "
           "reservations applying to a chip are pairwise disjoint and cover exactly its non-idle cores. Tied to the code "
           "by running the real MachineController against a simulated machine whose reply bytes are produced by the Lean "
@@ -38,7 +38,8 @@ CLAIM = dict(
 THEOREMS = ["consts_documented", "chipinfo_roundtrip", "p2p_roundtrip", "p2p_table_mem", "sysinfo_exact",
             "sysinfo_mem", "sysinfo_extent", "dead_chips_complement", "dead_links_complement",
             "build_machine_exact", "reservations_partition", "global_reservation_shared", "iobuf_chain",
-            "iobuf_bytes_exact", "sver_both_encodings", "status_fields_partial", "router_counters"]
+            "iobuf_bytes_exact", "sver_both_encodings", "status_fields_partial", "router_counters",
+            "status_block", "processor_status_exact"]
 
 RULE = ("cases = machine states: (system) P2P dimensions 1..12 x 1..12 and sparse 255-wide/high tables, listed / "
         "unlisted / unresponsive (silent or error-code) / ghost chips, per-chip core counts, state patterns shared by "
